@@ -52,6 +52,20 @@ def neighbours(rng, names, units_by_ann, valid):
                     al = list(valid)
                     al[j] = tj
                     out.append(("dup-unit", al))
+        # the SAME (annotator, unit) a second time inside its own tuple, in the place of another slot (an empty one: nothing else is missing,
+        # the only fault is the repetition; a filled one: that unit goes missing as well)
+        for _ in range(4):
+            i = rng.randrange(len(valid))
+            t = valid[i]
+            reals = [k for k, s in enumerate(t) if s[1] is not None]
+            empties = [k for k, s in enumerate(t) if s[1] is None]
+            if reals and len(t) >= 2:
+                k = rng.choice(reals)
+                others = empties if (empties and rng.random() < 0.7) else [x for x in range(len(t)) if x != k]
+                j = rng.choice(others)
+                al = list(valid)
+                al[i] = [t[k] if x == j else s for x, s in enumerate(t)]
+                out.append(("dup-within-tuple", al))
         # remove one unit (slot becomes empty)
         for _ in range(3):
             i = rng.randrange(len(valid))
